@@ -110,31 +110,33 @@ func genC03(r *Rng) *Plan {
 			k := r.Range(1, 4)
 			sep := r.Pick("; ", ";", "; ")
 			parts := append([]string{}, others[:k]...)
+			// the way the client spells the pair: HTTP servers trim blanks around a cookie's name, so all of these are the session cookie
+			sessPair := ProxyCookieName + r.Pick("=", "=", "=", "=", " =", "\t=", "= ") + "{{session}}"
 			switch r.Intn(8) {
 			case 5: // several Cookie header lines, the first one the same in every such request of this run: alone …
 				st.NoJar = true
 				st.CookieHdr = firstLine
 			case 6: // … followed by the session cookie on a line of its own …
 				st.NoJar = true
-				st.CookieHdr = firstLine + "||" + ProxyCookieName + "={{session}}"
+				st.CookieHdr = firstLine + "||" + sessPair
 			case 7: // … or by per-request cookies and the session cookie
 				st.NoJar = true
-				st.CookieHdr = firstLine + "||app_sid=" + r.Pick("alice-1234", "bob-5678", "carol-9") + "; " + others[0] + "||" + ProxyCookieName + "={{session}}"
+				st.CookieHdr = firstLine + "||app_sid=" + r.Pick("alice-1234", "bob-5678", "carol-9") + "; " + others[0] + "||" + sessPair
 			case 0: // jar supplies the session cookie first
 				st.CookieHdr = strings.Join(parts, sep)
 			case 1:
 				st.NoJar = true
-				st.CookieHdr = strings.Join(append(parts, ProxyCookieName+"={{session}}"), sep)
+				st.CookieHdr = strings.Join(append(parts, sessPair), sep)
 			case 2:
 				st.NoJar = true
-				mid := append(append(append([]string{}, parts[:k/2]...), ProxyCookieName+"={{session}}"), parts[k/2:]...)
+				mid := append(append(append([]string{}, parts[:k/2]...), sessPair), parts[k/2:]...)
 				st.CookieHdr = strings.Join(mid, sep)
 			case 3: // duplicated
 				st.NoJar = true
-				st.CookieHdr = strings.Join(append(append([]string{ProxyCookieName + "={{session}}"}, parts...), ProxyCookieName+"={{session}}"), sep)
+				st.CookieHdr = strings.Join(append(append([]string{sessPair}, parts...), sessPair), sep)
 			case 4: // a bogus first, the genuine second
 				st.NoJar = true
-				st.CookieHdr = strings.Join(append([]string{ProxyCookieName + "=bogus", ProxyCookieName + "={{session}}"}, parts...), sep)
+				st.CookieHdr = strings.Join(append([]string{ProxyCookieName + "=bogus", sessPair}, parts...), sep)
 			}
 		}
 		p.Steps = append(p.Steps, st)
@@ -189,7 +191,7 @@ func genC06(r *Rng) *Plan {
 		p.Steps = append(p.Steps, Step{Op: "flow_start", B: bB, Name: "B", User: userB, Host: hostB, Target: tgtB})
 	}
 	variants := []string{"honest", "honest", "replay", "crossed", "crossed-state", "other-code", "state-equals-cookie", "cookie-as-state", "no-state", "no-cookie", "no-code",
-		"error-param", "foreign-state", "forged-state", "corrupt-state", "corrupt-cookie", "corrupt-code", "session-as-code", "junk-state", "body-vs-query", "body-vs-query"}
+		"error-param", "foreign-state", "forged-state", "corrupt-state", "corrupt-cookie", "corrupt-code", "session-as-code", "junk-state", "body-vs-query", "body-vs-query", "corrupt-both"}
 	if len(p.Steps) == 2 && bB == "b2" && r.Chance(1, 2) {
 		// two callbacks in flight at once (the first one's redemption is still outstanding when the second
 		// arrives): each is judged on its own code, state and cookie
@@ -219,7 +221,12 @@ func genC06(r *Rng) *Plan {
 		case "forged-state":
 			st.Str = r.Pick("https://evil.com/", "//evil.com", "/ok")
 		case "corrupt-state", "corrupt-cookie", "corrupt-code":
-			st.Str = r.Pick("flip", "truncate", "extend", "reencode", "random")
+			st.Str = r.Pick("flip", "truncate", "extend", "reencode", "random", "tail")
+			st.Arg = r.Intn(5000)
+		case "corrupt-both":
+			// after the genuine values have been through the process once
+			p.Steps = append(p.Steps, Step{Op: "pending", B: st.B, Name: st.Name, Sub: r.Pick("honest", "replay", "crossed"), Str: st.Str, Follow: 2})
+			st.Str = r.Pick("tail", "tail", "flip", "random")
 			st.Arg = r.Intn(5000)
 		case "junk-state":
 			st.Str = r.Pick("", "AAAA", "%%%", strings.Repeat("A", 300))
@@ -285,7 +292,7 @@ func genC12(r *Rng) *Plan {
 				}
 			}
 		}
-		bodyKind := r.Intn(6)
+		bodyKind := r.Intn(7)
 		if st.Method == "GET" || st.Method == "HEAD" || st.Method == "OPTIONS" || st.Method == "DELETE" {
 			bodyKind = r.Pick0(0, 0, 0, 1, 5)
 		}
@@ -301,6 +308,17 @@ func genC12(r *Rng) *Plan {
 			st.Chunked = true
 		case 5:
 			hdrs = append(hdrs, [2]string{"Content-Length", r.Pick("0", "0", "00")})
+		case 6:
+			// an HTML form post: anything on the way that "just parses the parameters" consumes this body
+			var keep [][2]string
+			for _, h := range hdrs {
+				if h[0] != "Content-Type" {
+					keep = append(keep, h)
+				}
+			}
+			hdrs = append(keep, [2]string{"Content-Type", r.Pick("application/x-www-form-urlencoded", "application/x-www-form-urlencoded; charset=utf-8")})
+			st.Body = r.Pick("name=octo&colour=blue", "a=1&a=2&b=%20x+y", "q=%zz;semi=colon&empty=")
+			st.Chunked = r.Chance(1, 2)
 		}
 		if bodyKind >= 1 && bodyKind <= 3 && r.Chance(1, 12) {
 			hdrs = append(hdrs, [2]string{"Content-Length", fmt.Sprintf("0%d", len(PlanBytes(st.Body)))})
@@ -734,7 +752,7 @@ func genC02(r *Rng) *Plan {
 	p := &Plan{Cfg: cfg, Users: stdUsers, Gen: "sealed"}
 	host := cfg.Routes[0].From
 	corrupt := func() (string, int) {
-		return r.Pick("flip", "flip", "truncate", "extend", "reencode", "random"), r.Intn(6000)
+		return r.Pick("flip", "flip", "truncate", "extend", "reencode", "random", "tail"), r.Intn(6000)
 	}
 	switch r.Intn(5) {
 	case 0: // proxy session cookie
